@@ -17,7 +17,8 @@ RULE = (
     "QuantityValidationError whose (operator, limit) is a limit that a reported element really violates; "
     "CheckValueForCategory agrees; verdict invariant under element permutation, container kind, repeated calls, "
     "CreateCopy into another category (no stale cached verdict) and - for amounts not within 1e-9 of a boundary - "
-    "re-expression in another unit. Registration oracle: an accepted registration has default_unit in units(type), a "
+    "re-expression in another unit; after the same category is registered again (override) with another limit "
+    "configuration the verdicts follow the definition in force. Registration oracle: an accepted registration has default_unit in units(type), a "
     "default value that satisfies the limits, Scalar(category).IsValid(); an inconsistent one raises and leaves the "
     "registry unchanged. Non-trivial = limits present and a value within 3 ulp of a boundary, or an array with a NaN "
     "and an out-of-range element; key = (limit config, unit, container, verdict)."
@@ -66,7 +67,7 @@ class Checker:
         return "bv c12 %d" % self.counter
 
     # -- registration ---------------------------------------------------------------------------
-    def register(self, cfg, case, name=None, from_category=None):
+    def register(self, cfg, case, name=None, from_category=None, override=False):
         """AddCategory with the generated arguments.  Returns the effective config (dict) if the
         registration was accepted, None if it raised."""
         ctx, db = self.ctx, self.db
@@ -90,6 +91,9 @@ class Checker:
             kw["from_category"] = from_category
         else:
             kw["quantity_type"] = cfg["qt"]
+        if override:
+            kw["override"] = True
+        existed = override and db.IsValidCategory(name)
         before = snapshot.registry_light(db)
         ctx.ev()
         try:
@@ -98,7 +102,7 @@ class Checker:
             if core.tree_frame(e) is None and not isinstance(e, (AssertionError, ValueError, RuntimeError)):
                 raise
             ctx.cls("registration_rejected_%s" % type(e).__name__)
-            if snapshot.registry_light(db) != before or db.IsValidCategory(name):
+            if snapshot.registry_light(db) != before or (db.IsValidCategory(name) and not existed):
                 ctx.fail("rejected_registration_left_traces", case, "AddCategory(%r, %r) raised %s but the registry changed" % (name, kw, type(e).__name__))
             return None
         ctx.cls("registration_accepted")
@@ -308,6 +312,16 @@ class Checker:
                             ctx.fail("verdict_depends_on_unit", case, "%r %s is %s but the same amount %r %s is not" % (x, u, "valid" if want else "invalid", y, w))
         self.check_array(cfg, case, u, xs, other)
         self.check_nested(cfg, case, u, xs)
+        # the same category is registered again (override) with the other configuration, after quantities and verdicts of
+        # the old definition exist: validation follows the definition in force
+        if case.get("other") is not None:
+            redefined = self.register(dict(case["other"], qt=cfg["qt"]), case, name=cfg["name"], override=True)
+            if redefined is not None:
+                ctx.cls("category_redefined_with_override")
+                for x in xs[:3]:
+                    for cls in ("Scalar", "FractionScalar"):
+                        self.check_scalar_like(redefined, dict(case, phase="after override"), cls, u, x)
+                self.check_array(redefined, dict(case, phase="after override"), u, xs[:4])
         ctx.cls("limits_%s" % ("none" if not lim else ("both" if cfg["min"] is not None and cfg["max"] is not None else ("min" if cfg["min"] is not None else "max"))))
         if cfg["min_excl"] or cfg["max_excl"]:
             ctx.cls("exclusive_limit")
